@@ -27,8 +27,8 @@ def bounded(tier, seed):
 
 MANIFEST = dict(
     category="other",
-    text='Contract-based proof of the two-stage solve logic and getters on the real source + per-instance z3 proof over all solver outcomes of conservation/non-negativity/error bounds + bounded comparison with an exact L1 flow-correction oracle.',
+    text='Contract-based proofs on the real source: the ENCODER _encode_flow (conservation at inner nodes, error columns bound the change, for every assignment), the objective handed to the solver, the two-stage solve logic and getters + per-instance z3 proof over all solver outcomes (SymMILP) + bounded comparison with an exact L1 flow-correction oracle.',
     design_ref="DESIGN.md section 3 / C16",
     note='Optimality is decided by the bounded comparison only. Known open finding: HiGHS presolve reports a feasible few-values model infeasible (solver defect).',
-    technique='contract-based deductive verification of the solve logic (PyVC) + SymMILP + bounded runtime-contract check vs exact L1 oracle',
+    technique='contract-based deductive verification of encoder, objective and solve logic (PyVC) + SymMILP + bounded runtime-contract check vs exact L1 oracle',
     engine='pyvc+symmilp+rc')
